@@ -196,7 +196,11 @@ func (c *Ctx) updPath(cur string, path []pathEl, nv string) string {
 func (f *Frame) storeAddr(st *State, a *Addr, v string, guard, where string) {
 	c := f.c()
 	f.x.syncViewsBack(st)
-	f.x.frameCheck(st, a.Heap, a.Ref, guard, where)
+	if a.Idx != "" {
+		f.x.frameCheck(st, a.Heap, a.Ref, guard, where, a.Idx, "(+ "+a.Idx+" 1)")
+	} else {
+		f.x.frameCheck(st, a.Heap, a.Ref, guard, where)
+	}
 	h := st.get(a.Heap)
 	if a.Idx != "" {
 		arr := sel(h, a.Ref)
@@ -257,7 +261,9 @@ func (f *Frame) store(st *State, p SV, t types.Type, v string, guard, where stri
 
 // frameCheck: when the function under contract has an assigns clause, every write must target memory
 // allocated during the call or an explicitly allowed location.
-func (x *Exec) frameCheck(st *State, heap, ref, guard, where string) {
+// rng, when given, is the half-open index range [rng[0], rng[1]) of the backing array that is written; it is
+// compared with the window of an `assigns s[*]` target (the elements s[0..len(s)) only).
+func (x *Exec) frameCheck(st *State, heap, ref, guard, where string, rng ...string) {
 	if x.root == nil || x.root.contract == nil || len(x.root.contract.Assigns) == 0 || x.discover {
 		return
 	}
@@ -273,14 +279,19 @@ func (x *Exec) frameCheck(st *State, heap, ref, guard, where string) {
 		tags = append(tags, cl.Tags...)
 		for _, tgt := range x.assignTargets(cl) {
 			if tgt.heap == heap || tgt.heap == "*" {
-				allowed = append(allowed, eq(ref, tgt.ref))
+				if tgt.lo == "" {
+					allowed = append(allowed, eq(ref, tgt.ref))
+				} else if len(rng) == 2 {
+					allowed = append(allowed, and(eq(ref, tgt.ref), x.c.simplify("(<= "+tgt.lo+" "+rng[0]+")"), x.c.simplify("(<= "+rng[1]+" "+tgt.hi+")")))
+				}
 			}
 		}
 	}
 	x.c.oblige("assigns", tags, guard, or(allowed...), where, "write to "+heap+" must be to fresh or assignable memory")
 }
 
-type assignTarget struct{ heap, ref string }
+// assignTarget: one assignable location set: object ref in heap; for `s[*]` lo/hi bound the element window.
+type assignTarget struct{ heap, ref, lo, hi string }
 
 func (x *Exec) assignTargets(cl *Clause) []assignTarget {
 	txt := strings.TrimSpace(cl.Text)
